@@ -135,12 +135,15 @@ HARNESS(h_fill_array64) {
 /* H4: gen_rand64 / gen_rand32 with arbitrary state and arbitrary idx in range: value, idx update, refill.
  * The index is nondet; the harness dispatches on it with a loop over the concrete values so that each call runs
  * with a constant idx (the refill branch is then decided during symbolic execution instead of being merged). */
+#ifndef LO
+#define LO 0      /* -DLO=624: only the refill case (quick tier); default: every idx */
+#endif
 static void one_gen_rand(int c, int is64) {
     D.idx = c; D.initialized = 1;
     uint64_t v = is64 ? k_gen_rand64(data_mem) : (uint64_t)k_gen_rand32(data_mem);
     int j = c >= 624 ? 0 : c;
     if (c >= 624) check_stream(D.s, RN);
-    else CHECK(ARRAY_EQUAL(D.s, pre), "gen_rand32/64 without refill leaves the state unchanged");
+    else { uint32_t diff = 0; for (int i = 0; i < 624; i++) diff |= D.s[i] ^ pre[i]; CHECK(diff == 0, "gen_rand32/64 without refill leaves the state unchanged"); }
     if (is64) {
         CHECK(v == ((uint64_t)D.s[j] | ((uint64_t)D.s[j + 1] << 32)), "gen_rand64 returns the next two 32-bit words (little endian) of the stream");
         CHECK(D.idx == j + 2, "gen_rand64 advances idx by 2 (after wrap)");
@@ -154,16 +157,16 @@ HARNESS(h_gen_rand64) {
     setup_arbitrary_state();
     IN_U32(in_w, 0);
     int idx = (int)in_w[0];
-    ASSUME(idx >= 0 && idx <= 624 && idx % 2 == 0);
-    for (int c = 0; c <= 624; c += 2) if (c == idx) { one_gen_rand(c, 1); break; }
+    ASSUME(idx >= LO && idx <= 624 && idx % 2 == 0);
+    for (int c = LO; c <= 624; c += 2) if (c == idx) { one_gen_rand(c, 1); break; }
     WITNESS_POINT();
 }
 HARNESS(h_gen_rand32) {
     setup_arbitrary_state();
     IN_U32(in_w, 0);
     int idx = (int)in_w[0];
-    ASSUME(idx >= 0 && idx <= 624);
-    for (int c = 0; c <= 624; c++) if (c == idx) { one_gen_rand(c, 0); break; }
+    ASSUME(idx >= LO && idx <= 624);
+    for (int c = LO; c <= 624; c++) if (c == idx) { one_gen_rand(c, 0); break; }
     WITNESS_POINT();
 }
 
